@@ -1,4 +1,4 @@
--- PINNED by bin/pin_tables: copy of Gen/Coerce.lean as generated from /repo at edfbc42 — regenerate, do not edit
+-- PINNED by bin/pin_tables: copy of Gen/Coerce.lean as generated from /repo at 01061db — regenerate, do not edit
 import Ggql.Model.Coerce
 namespace Ggql.Pinned
 open Ggql.Coerce
@@ -6,13 +6,13 @@ def coerceInInt : Table :=
   { arms := [(.f64, .convCheckedKeep .i32), (.i16, .conv .i32), (.i32, .asIs), (.i64, .convCheckedKeep .i32), (.i8, .conv .i32), (.int, .convCheckedKeep .i32), (.nil, .asIs), (.u16, .conv .i32), (.u32, .convCheckedKeep .i32), (.u64, .convCheckedKeep .i32), (.u8, .conv .i32), (.uint, .convCheckedKeep .i32)],
     dflt := .failNil, formatTime := false }
 def coerceOutInt : Table :=
-  { arms := [(.f32, .conv .i32), (.f64, .conv .i32), (.i16, .conv .i32), (.i32, .asIs), (.i64, .convCheckedKeep .i32), (.i8, .conv .i32), (.int, .convCheckedKeep .i32), (.nil, .asIs), (.str, .parseInt32Keep), (.u16, .conv .i32), (.u32, .convCheckedKeep .i32), (.u64, .convCheckedKeep .i32), (.u8, .conv .i32), (.uint, .convCheckedKeep .i32)],
+  { arms := [(.f32, .convTrunc .i32), (.f64, .convTrunc .i32), (.i16, .conv .i32), (.i32, .asIs), (.i64, .convCheckedKeep .i32), (.i8, .conv .i32), (.int, .convCheckedKeep .i32), (.nil, .asIs), (.str, .parseInt32Keep), (.u16, .conv .i32), (.u32, .convCheckedKeep .i32), (.u64, .convCheckedKeep .i32), (.u8, .conv .i32), (.uint, .convCheckedKeep .i32)],
     dflt := .failNil, formatTime := false }
 def coerceInInt64 : Table :=
   { arms := [(.i32, .asIs), (.i64, .asIs), (.nil, .asIs), (.str, .parseIntKeep .i64)],
     dflt := .failNil, formatTime := false }
 def coerceOutInt64 : Table :=
-  { arms := [(.f32, .conv .i64), (.f64, .conv .i64), (.i16, .conv .i64), (.i32, .conv .i64), (.i64, .asIs), (.i8, .conv .i64), (.int, .conv .i64), (.nil, .asIs), (.str, .parseIntKeep .i64), (.u16, .conv .i64), (.u32, .conv .i64), (.u64, .convCheckedKeep .i64), (.u8, .conv .i64), (.uint, .convCheckedKeep .i64)],
+  { arms := [(.f32, .convTrunc .i64), (.f64, .convTrunc .i64), (.i16, .conv .i64), (.i32, .conv .i64), (.i64, .asIs), (.i8, .conv .i64), (.int, .conv .i64), (.nil, .asIs), (.str, .parseIntKeep .i64), (.u16, .conv .i64), (.u32, .conv .i64), (.u64, .convCheckedKeep .i64), (.u8, .conv .i64), (.uint, .convCheckedKeep .i64)],
     dflt := .failNil, formatTime := false }
 def coerceInFloat : Table :=
   { arms := [(.f32, .convStrict .f32), (.f64, .convStrict .f32), (.i32, .conv .f32), (.i64, .conv .f32), (.nil, .asIs)],
